@@ -3,6 +3,7 @@ import NixModel.Lemmas.C12Ops
 import NixModel.Lemmas.StoreWF
 import NixModel.Lemmas.C12Avail
 import NixModel.Lemmas.C12MultiTagFull
+import NixModel.Lemmas.C12Extend
 
 /-!
 # C12 — a refused operation leaves the file exactly as it was
@@ -179,6 +180,22 @@ same node after it -/
 theorem paths_kept {g g' : Graph} (h : Unch g g') (p : Path) (r : Loc)
     (hr : resolve g rootLoc p = some r) : resolve g' rootLoc p = some r := h.resolve p hr
 
+/-! ## `LinkContainer.extend` -/
+
+/-- `extend(items)` checks every item before the first link is written: a refused `extend` has written nothing -/
+theorem extend_refused_unchanged (g : Graph) (c : Cont) (keys : List Key) (e : Err)
+    (h : (contExtendW g c keys).2 = some e) : (contExtendW g c keys).1 = g := contExtendW_refused g c keys e h
+
+/-- the statement is not vacuous and not automatic: the loop of `append` calls the method used to be
+(`contExtendLoopW`) links the leading item of `[own array, foreign array]` and then refuses -/
+theorem extend_loop_counterexample :
+    ¬ (∀ (g : Graph) (c : Cont) (keys : List Key) (e : Err),
+        (contExtendLoopW g c keys).2 = some e → (contExtendLoopW g c keys).1 = g) := by
+  intro hall
+  exact loop_changes_file.2 (hall extDemo extCont [.ent 7, .ent 11] .runtimeError loop_changes_file.1)
+
+example : contExtendW extDemo extCont [.ent 7, .ent 11] = (extDemo, some .runtimeError) := extend_refuses_cleanly
+
 /-! ## `create_multi_tag` with positions / extents given as data
 
 The writer `createMultiTagW` follows `Block.create_multi_tag`: auto-created arrays
@@ -206,6 +223,37 @@ theorem auto_array_refused_unchanged {g : Graph} (hT : Tidy g) (p : Path) (n t :
   autoArray_unch hT p n t f e h
 
 def demo : Graph := run init [.createBlock "b" "t", .createIn [.name "data", .name "b"] "data_array" "a" "t" none]
+
+/-- the demo state is a state of a fresh history, hence satisfies every hypothesis used above (`WF`, so
+`Tidy` and `NamesNotFuture`); the auto-array names of the demo call are not ids -/
+theorem demo_reachable : ReachableFresh demo :=
+  ⟨[.createBlock "b" "t", .createIn [.name "data", .name "b"] "data_array" "a" "t" none],
+   ⟨fun n hn m _ => by cases hn; exact notId_of_head (by decide) m,
+    fun n hn m _ => by cases hn; exact notId_of_head (by decide) m, trivial⟩, rfl⟩
+
+example : WF demo := demo_reachable.wf
+example : Tidy demo ∧ NamesNotFuture demo := tidy_of_wf demo_reachable.wf
+example : ∀ m, "m" ++ "-positions" ≠ idStr m := notId_of_head (by decide)
+example : ∀ m, "m" ++ "-extents" ≠ idStr m := notId_of_head (by decide)
+
+/-- a refused `append_range_dimension([3,2,1])` on the demo array: the hypothesis `DimsDense` holds, the call
+is refused after the descriptor and its ticks were written, and the array has no `dimensions` entry -/
+def demoArray : Path := [.name "data", .name "b", .name "data_arrays", .name "a"]
+
+example : Lemmas.DimsDense demo demoArray := by
+  intro o d hr hc
+  have h1 : resolve demo rootLoc demoArray = some { key := 5, parent := 4, lname := "a", depth := 4 } := by
+    decide +kernel
+  rw [h1] at hr
+  cases hr
+  have h2 : demo.child? 5 "dimensions" = none := by decide +kernel
+  rw [h2] at hc
+  cases hc
+
+def demoDim : Option Reached := applyW demo (.appendDim demoArray "range" true (some ⟨.data, .valueError⟩))
+
+example : demoDim.map (fun r => (r.2, (r.1.links 5).map (·.1), ((r.1.child? 5 "dimensions").map r.1.links))) =
+    some (some .valueError, ["data", "dimensions"], some []) := by decide +kernel
 
 /-- non-vacuity: valid positions data, extents of an invalid class — refused, and the auto-created
 `m-positions` is gone again from the block's `data_arrays` -/
